@@ -24,26 +24,37 @@ macro_rules! properties {
 properties! {
     "C01" => c01,
     "C02" => c02,
+    "C03" => c03,
     "C04" => c04,
     "C05" => c05,
+    "C06" => c06,
     "C07" => c07,
+    "C08" => c08,
+    "C09" => c09,
     "C11" => c11,
     "C12" => c12,
+    "C13" => c13,
     "C14" => c14,
     "C16" => c16,
+    "C17" => c17,
     "C18" => c18,
     "C19" => c19,
     "C20" => c20,
 }
 
 pub mod c18_model;
+pub mod ptsweep;
 
 /// Cheap self-tests of the numerical oracles; failure makes the run inconclusive, not a violation.
 pub fn self_test() -> bool {
     crate::oracle::dd::self_test()
         && crate::oracle::linalg::self_test()
         && crate::oracle::quad::self_test()
+        && crate::oracle::cdf::self_test()
+        && crate::oracle::glm_ref::self_test()
+        && crate::oracle::special::self_test()
         && c02::self_test()
+        && c13::self_test()
         && c19::self_test()
         && c20::self_test()
 }
